@@ -85,15 +85,22 @@ pub fn round_trip<T: Fam>(v: &T, cfg: SerCfg, known: &Known) -> Outcome {
     // to_utf8_io_writer into a sink that takes one byte per call, to_string_with_root
     if cfg == SerCfg::plain() {
         let via = guarded_mut(|| -> Result<(), String> {
+            // (what is demanded of a sibling entry point is the property itself — its output deserializes to the
+            // value —, not byte identity with to_string)
             let mut a = String::new();
             quick_xml::se::to_writer(&mut a, v).map_err(|e| format!("to_writer fails: {:?}", e))?;
-            if a != xml {
-                return Err(format!("to_writer gives {:?}", a));
+            match de::<T>(&a) {
+                Ok(back) if back == *v => {}
+                other if a == xml => { let _ = other; } // same document as to_string: judged below
+                other => return Err(format!("to_writer gives {:?}, deserialized as {:?}", a, other)),
             }
             let mut sink = crate::props::c13::ShortSink { out: Vec::new(), max: 1 };
             quick_xml::se::to_utf8_io_writer(&mut sink, v).map_err(|e| format!("to_utf8_io_writer fails: {:?}", e))?;
-            if sink.out != xml.as_bytes() {
-                return Err(format!("to_utf8_io_writer into a one-byte-per-call sink gives {:?}", lossy(&sink.out)));
+            let text = String::from_utf8(sink.out).map_err(|_| "to_utf8_io_writer wrote bytes that are not UTF-8".to_string())?;
+            match de::<T>(&text) {
+                Ok(back) if back == *v => {}
+                other if text == xml => { let _ = other; }
+                other => return Err(format!("to_utf8_io_writer into a one-byte-per-call sink gives {:?}, deserialized as {:?}", text, other)),
             }
             let b = quick_xml::se::to_string_with_root("r", v).map_err(|e| format!("to_string_with_root fails: {:?}", e))?;
             match de::<T>(&b) {
@@ -284,7 +291,7 @@ pub fn run(ctx: &Ctx) {
          0..2/3; options; numeric extremes) x 3 quote levels x indent off/on x expand-empty off/on x root name from the type / \
          with_root; plus, per payload position of each type (attribute, element text, $text, $value, list item in attribute / text, \
          map value, newtype / struct / $text variant payload, char), every string up to length 3/5 over {< > & ' \" space tab LF CR FF ] ; # a é U+FEFF} (and, for size thresholds, filler^p . item . filler^q with p <= 40/130 and q around the powers of two, three quote levels) \
-         inside that position's documented domain: to_string must succeed (and, under the plain configuration, to_writer, to_utf8_io_writer into a one-byte-per-call sink and to_string_with_root must agree with it) and from_str and from_reader of the output must equal the value. non-trivial = every \
+         inside that position's documented domain: to_string must succeed (and, under the plain configuration, the output of to_writer, of to_utf8_io_writer into a one-byte-per-call sink and of to_string_with_root must deserialize to the value as well) and from_str and from_reader of the output must equal the value. non-trivial = every \
          round trip (all values carry markup-relevant payloads or structure); distinct by construction. states = distinct document \
          skeletons produced",
     );
